@@ -189,3 +189,25 @@ pub fn compare(exp: &[usize], got: &[usize]) -> Result<(), (&'static str, Option
     }
     Err(("order", None))
 }
+
+/// Observation only (vacuity guard): did the min-offset pruning remove something from the chunks
+/// of the region's bins? (pruned answer != plain merge of all chunks of the bins)
+pub fn pruning_removed_chunks<I>(index: &noodles_csi::binning_index::Index<I>, rid: usize, reg: Reg) -> bool
+where
+    I: noodles_csi::binning_index::index::reference_sequence::Index,
+{
+    use noodles_csi::{BinningIndex, binning_index::merge_chunks};
+    // only short closed regions are examined (each probe costs two more index look-ups)
+    match reg {
+        Reg::Closed(a, b) if b - a <= 2 => {}
+        _ => return false,
+    }
+    let Ok(bins) = index.reference_sequences()[rid].query(index.min_shift(), index.depth(), reg.interval()) else {
+        return false;
+    };
+    let all: Vec<_> = bins.iter().flat_map(|b| b.chunks()).copied().collect();
+    match index.query(rid, reg.interval()) {
+        Ok(pruned) => pruned != merge_chunks(&all),
+        Err(_) => false,
+    }
+}
